@@ -324,6 +324,39 @@ def random_scripts(seed, n, n_ops, S_choices, tid0, profile="mixed", sweep="full
     return res
 
 
+def lazy_flood_scripts(seed, n, tid0, kinds=None):
+    """many (70-200) lazy actions queued before ONE maintain - inserts and removals on few entities with
+    distinct values, so that the order of application is visible in the result - some of them closures
+    that queue further actions (which must run after everything queued before them)"""
+    res = []
+    kinds = kinds or [k for k in KINDS if not k.endswith("null")]
+    for i in range(n):
+        rng = random.Random((seed * 2654435761 + i * 40503) & 0xFFFFFFFF)
+        S = rng.choice([1, 2])
+        ne = rng.randint(2, 4)
+        ops = [{"o": "create", "with": [s for s in range(S) if rng.random() < 0.5]} for _ in range(ne)]
+        for frame in range(rng.randint(1, 2)):
+            only_mut = rng.random() < 0.25          # a frame that queues through exec_mut only
+            for _ in range(rng.choice([70, 100, 140, 200]) if not only_mut else rng.randint(1, 4)):
+                x = rng.random()
+                if only_mut:
+                    ops.append({"o": "lexec_mut", "body": [{"o": "sop", "path": "insert", "s": rng.randrange(S), "h": rng.randrange(ne)}]})
+                elif x < 0.55:
+                    ops.append({"o": "linsert", "s": rng.randrange(S), "h": rng.randrange(ne)})
+                elif x < 0.75:
+                    ops.append({"o": "lremove", "s": rng.randrange(S), "h": rng.randrange(ne)})
+                elif x < 0.82:
+                    ops.append({"o": "linsert_all", "s": rng.randrange(S), "hs": [rng.randrange(ne) for _ in range(rng.randint(1, 3))]})
+                else:
+                    body = [{"o": rng.choice(["linsert", "lremove"]), "s": rng.randrange(S), "h": rng.randrange(ne)} for _ in range(rng.randint(1, 2))]
+                    if rng.random() < 0.3:
+                        body.append({"o": "sop", "path": "insert", "s": rng.randrange(S), "h": rng.randrange(ne)})
+                    ops.append({"o": rng.choice(["lexec", "lexec_mut"]), "body": body})
+            ops.append({"o": "maintain"})
+        res.append({"tid": tid0 + i, "cfg": cfg_for(rng.randrange(1000), S, kinds), "ops": ops, "sweep": "full"})
+    return res
+
+
 def gen_churn_scripts(seed, n, tid0, kinds=None):
     """few entities, but some indices recycled hundreds of times (generations far
     beyond anything short histories reach) and large batches (hundreds of entities
